@@ -410,6 +410,23 @@ fn sanitize(n: &mut Node, floor: u32) {
       sanitize(inner, f);
       return;
     }
+    Node::Nary(Comb::Amb, v) => {
+      // whether amb subscribes inputs that cannot win any more is not fixed by any
+      // property: keep sources with per-subscription behaviour out of amb
+      fn flatten(n: &mut Node) {
+        if let Node::Src(_, s) = n {
+          if let Src::PerSub { scripts, polite } = s {
+            *s = Src::Cold { script: scripts[0].clone(), polite: *polite };
+          }
+        }
+        for c in n.children_mut() {
+          flatten(c);
+        }
+      }
+      for c in v.iter_mut() {
+        flatten(c);
+      }
+    }
     Node::Src(_, s) => match s {
       Src::Cold { script, .. } => bump(script, floor),
       Src::PerSub { scripts, .. } => {
@@ -582,4 +599,31 @@ pub fn schedule() -> BoxedStrategy<Schedule> {
 
 pub fn hash_only_schedule() -> BoxedStrategy<Schedule> {
   (0u64..4).prop_map(|hs| Schedule { hash_seed: hs, ..Schedule::default() }).boxed()
+}
+
+// ---------------------------------------------------------------------------------------
+// single-source chains (C02)
+
+pub fn chain(cfg: &GenCfg, min_ops: usize, max_ops: usize) -> BoxedStrategy<Node> {
+  let ops = prop::collection::vec(unary_ops(cfg), min_ops..=max_ops);
+  (leaf(cfg), ops)
+    .prop_map(|(src, ops)| {
+      let mut n = src;
+      for op in ops {
+        n = Node::Un(op, Box::new(n));
+      }
+      sanitize(&mut n, 0);
+      n.renumber();
+      n
+    })
+    .boxed()
+}
+
+/// counts that sit on the boundaries of a script of length `len`
+pub fn boundary_param(op: &Op, len: usize) -> bool {
+  let b = |n: usize| n == 0 || n == 1 || n + 1 == len || n == len || n == len + 1;
+  match op {
+    Op::Take(n) | Op::TakeLast(n) | Op::Skip(n) | Op::SkipLast(n) | Op::ElementAt(n) | Op::Buffer(n) | Op::Window(n) => b(*n),
+    _ => false,
+  }
 }
